@@ -19,10 +19,10 @@ CONSTANT Double     \* allow a second mutation behind the first
 
 VASeq == SetToSortSeq(VA, <)
 
-FlagOI(cs) == Len(cs) > 0 /\ (Len(cs) + cs[1]) % 2 = 0
-FlagD(cs) == IF Len(cs) = 0 THEN 0 ELSE (cs[1] \div 2 + Len(cs)) % 3
-LoopOf(cs) == MkLoop([i \in 1..Len(cs) |-> VOf(cs[i])], FlagOI(cs), FlagD(cs))
-GenLoop(n, a, j) == LoopOf([i \in 1..n |-> VASeq[(((a + j) * i + j * i * i) % Len(VASeq)) + 1]])
+\* flags depend on the loop's position only, so that the structure of the bases (and with it the
+\* set of failure keys) does not depend on the seed-chosen vertex values
+LoopOf(cs, j) == MkLoop([i \in 1..Len(cs) |-> VOf(cs[i])], j % 2 = 0, (j - 1) % 3)
+GenLoop(n, a, j) == LoopOf([i \in 1..n |-> VASeq[(((a + j) * i + j * i * i) % Len(VASeq)) + 1]], j)
 SpecLoops(P) ==
     LET nl == P % 10  a == P \div 10000000
     IN  [j \in 1..nl |-> GenLoop((P \div (10 * 100 ^ (j - 1))) % 100, a, j)]
@@ -51,7 +51,7 @@ BaseSeq ==
           IN  [i \in 1..Len(ls) |-> Base("Polyline", "v1", <<>>, <<>>, ls[i], EncPolyline(ls[i]))])
     \o If("Loop" \in Types,
           LET ls == SetToSortSeq(LoopLens, <)
-          IN  [i \in 1..Len(ls) |-> LET lp == GenLoop(ls[i], i, 1) IN Base("Loop", "v1", <<lp>>, <<>>, 0, EncLoop(lp, 0))])
+          IN  [i \in 1..Len(ls) |-> LET lp == GenLoop(ls[i], i, i) IN Base("Loop", "v1", <<lp>>, <<>>, 0, EncLoop(lp, 0))])
     \o If("PolygonL" \in Types,
           [i \in 1..Len(PolyList) |-> LET ls == SpecLoops(PolyList[i])
                                       IN  Base("Polygon", "lossless", ls, <<>>, 0, EncPolygonLossless(ls))])
